@@ -736,7 +736,7 @@ func init() {
 			c.Sample("a := 1\nif true {\n  let a := 2\n  func fi() {\n    a := 3\n    probe(\"inner\", a)\n  }\n  fi()\n  probe(\"outer\", a)\n}\nprobe(\"global\", a)")
 		}})
 	register(&Part{Prop: "C05", Name: "functions-objects-values", Quick: 1, Thor: 1, Replay: replay,
-		Desc: "parameters x 5 default kinds x 0-3 arguments; closures (counter, captured in list, later update), recursion with locals, lexical-not-dynamic resolution, fresh locals per call, no leak of call locals and parameters, first-class functions; objects (template properties, init arguments, this, independent instances, single / multiple / two-level inheritance with super constructors, methods writing this); value vs reference semantics for every scalar kind and for lists/maps through a second name and through parameters; nested container paths; write-then-read for number and string keys",
+		Desc: "parameters x 5 default kinds x 0-3 arguments; passed / defaulted / missing parameters whose name also exists in the global or enclosing function scope (outer variable untouched); closures (counter, captured in list, later update), recursion with locals, lexical-not-dynamic resolution, fresh locals per call, no leak of call locals and parameters, first-class functions; objects (template properties, init arguments, this, independent instances, single / multiple / two-level inheritance with super constructors, methods writing this); value vs reference semantics for every scalar kind and for lists/maps through a second name and through parameters; nested container paths; write-then-read for number and string keys",
 		Rule: "hand-enumerated families with computed expectations; all non-trivial",
 		Run: func(c *Ctx) {
 			c05Functions(c)
